@@ -1200,7 +1200,7 @@ pub fn gen_ops(rng: &mut Rng, len: usize) -> Vec<String> {
                 0 => "shr".to_string(),
                 1 => format!("shx {} {}", *rng.pick(&[0i64, 0, 1, -1]), if rng.chance(2, 3) { "g" } else { "b" }),
                 2 => "act".to_string(),
-                _ => format!("sh {}", *rng.pick(&[0i64, 0, 1, -1])),
+                _ => format!("sh {}", *rng.pick(&[0i64, 0, 1, -1, 3, 4])),
             },
             16 => format!("mc{} {}", if rng.chance(1, 2) { "1" } else { "" }, if rng.chance(1, 2) { "g" } else { "b" }),
             17..=19 => format!("al {} {}", rng.pick(&["add", "set", "rm"]), rng.pick(&["g", "g2", "b", "m", "gg", "x", "gx", "xg", "g2g", "ggd"])),
